@@ -579,12 +579,12 @@ class Bundle:
             gob.append("func A%d(%s)%s" % (ci, ", ".join(x.replace("cb.", "") for x in gparams), gret.replace("cb.", "")))
             gob.append("//go:linkname C%d C.c%d" % (ci, ci))
             gob.append("func C%d(fn func(%s)%s)" % (ci, ", ".join(gtypes), gret.replace("cb.", "")))
-            g = ["func cb%d(%s)%s {" % (ci, ", ".join(gparams), gret), go_print("cbarg", "s", True, lv),
-                 "\ts = cb.%s{}" % tn, "\tcb.Sink(unsafe.Pointer(&s))"]
+            body = [go_print("cbarg", "s", True, lv), "\ts = cb.%s{}" % tn, "\tcb.Sink(unsafe.Pointer(&s))"]
             if rsh:
-                g += go_fill("o", "cbres", rtn, rlv)
-                g.append("\treturn o")
-            g.append("}")
+                body += go_fill("o", "cbres", rtn, rlv)
+                body.append("\treturn o")
+            literal = ci % 3 == 2        # every third callback is a function literal (a closure without captured variables)
+            g = [] if literal else ["func cb%d(%s)%s {" % (ci, ", ".join(gparams), gret)] + body + ["}"]
             g.append("func case%d() {" % ci)
             g += go_fill("s", "arg", tn, lv)
             pa, qa, ra = go_scalar_args("arg")
@@ -595,7 +595,12 @@ class Bundle:
             else:
                 g.append("\t" + call)
             g.append(go_print("keep", "s", False, lv))
-            g.append("\tcb.C%d(cb%d)" % (ci, ci))
+            if literal:
+                g.append("\tcb.C%d(func(%s)%s {" % (ci, ", ".join(gparams), gret))
+                g += ["\t" + x for x in body]
+                g.append("\t})")
+            else:
+                g.append("\tcb.C%d(cb%d)" % (ci, ci))
             g.append("}")
             gom += g
             calls_go.append("\tif from <= %d {\n\t\tcase%d()\n\t}" % (ci, ci))
@@ -1100,7 +1105,8 @@ def check(chk):
         "C side compiled by the toolchain shim's clang-14 (as llgo does for LLGoFiles); gcc<->gcc and clang-14<->gcc runs of the "
         "same generated C self-validate generator and expectations on every run",
         "O2 = llgo -O2 with the reduced pass pipeline of hook H1 (plain -O2 crashes LLVM 14 here)" if thorough else "quick tier runs O0 only",
-        "Go callbacks are top-level functions (closures with captured variables are not passed to C)",
+        "Go callbacks are top-level functions and, for every third case, function literals without captured variables "
+        "(closures that capture variables are not passed to C)",
         "scalar arguments are compared after widening to 64 bits (sign extension is part of the value); struct fields bit for bit",
         "the location vectors printed by SysVCall select and describe cases; the verdict is the identity law alone",
     ]
